@@ -1,13 +1,165 @@
 package main
 
 import (
+	"flag"
 	"fmt"
-	"golang.org/x/tools/go/packages"
+	"os"
+	"regexp"
+	"sort"
+	"strings"
+	"time"
 )
 
+func usage() {
+	fmt.Fprintln(os.Stderr, `usage:
+  lvc verify [-repo /repo] [-pkg ./ring,...] [-f regexp] [-t sec] [-v]     (development)
+  lvc check <property-id> [--tier quick|thorough]                            (registered checks)
+  lvc lemmas                                                                 (prove the lemma library)`)
+	os.Exit(2)
+}
+
 func main() {
-	cfg := &packages.Config{Mode: packages.NeedName | packages.NeedSyntax | packages.NeedTypes | packages.NeedTypesInfo | packages.NeedFiles | packages.NeedImports | packages.NeedDeps, Dir: "/repo", BuildFlags: []string{"-tags=verif"}}
-	pkgs, err := packages.Load(cfg, "./ring")
-	fmt.Println(len(pkgs), err)
-	for _, p := range pkgs { fmt.Println(p.PkgPath, len(p.Syntax), p.Errors) }
+	if len(os.Args) < 2 {
+		usage()
+	}
+	switch os.Args[1] {
+	case "verify":
+		cmdVerify(os.Args[2:])
+	case "lemmas":
+		cmdLemmas(os.Args[2:])
+	case "check":
+		cmdCheck(os.Args[2:])
+	default:
+		usage()
+	}
+}
+
+func cmdLemmas(args []string) {
+	var obs []*Obligation
+	for _, n := range lemmaNames() {
+		obs = append(obs, lemmaLib[n].Proof())
+	}
+	DischargeAll(obs, 30)
+	bad := 0
+	for _, o := range obs {
+		fmt.Printf("%-28s %-8s %-7s %.2fs\n", o.Name, o.Status, o.Solver, o.Seconds)
+		if o.Status != "unsat" {
+			bad++
+		}
+	}
+	if bad > 0 {
+		os.Exit(1)
+	}
+}
+
+func cmdVerify(args []string) {
+	fs := flag.NewFlagSet("verify", flag.ExitOnError)
+	repo := fs.String("repo", "/repo", "repository root")
+	pkgs := fs.String("pkg", "./ring", "comma separated package patterns")
+	filt := fs.String("f", "", "regexp on function key")
+	timeout := fs.Int("t", 5, "solver timeout per obligation (s)")
+	verbose := fs.Bool("v", false, "print every obligation")
+	_ = fs.Parse(args)
+	t0 := time.Now()
+	prog, err := LoadProgram(*repo, strings.Split(*pkgs, ",")...)
+	if err != nil {
+		fmt.Fprintln(os.Stderr, err)
+		os.Exit(2)
+	}
+	fmt.Printf("loaded in %.1fs: %d contracts\n", time.Since(t0).Seconds(), len(prog.Contracts))
+	var re *regexp.Regexp
+	if *filt != "" {
+		re = regexp.MustCompile(*filt)
+	}
+	var results []*FuncResult
+	var all []*Obligation
+	for _, k := range prog.Order {
+		if re != nil && !re.MatchString(k) {
+			continue
+		}
+		r := prog.VerifyFunc(k)
+		results = append(results, r)
+		all = append(all, r.Obls...)
+	}
+	used := map[string]bool{}
+	for n := range usedLemmas {
+		used[n] = true
+	}
+	var ln []string
+	for n := range used {
+		ln = append(ln, n)
+	}
+	sort.Strings(ln)
+	for _, n := range ln {
+		all = append(all, lemmaLib[n].Proof())
+	}
+	t1 := time.Now()
+	DischargeAll(all, *timeout)
+	fmt.Printf("%d obligations discharged in %.1fs\n", len(all), time.Since(t1).Seconds())
+	bad := 0
+	for _, r := range results {
+		ok, n := 0, 0
+		for _, o := range r.Obls {
+			if o.Kind == "vacuity" {
+				continue
+			}
+			n++
+			if o.Status == "unsat" {
+				ok++
+			}
+		}
+		status := "ok"
+		if r.Err != "" {
+			status = "ERROR " + r.Err
+			bad++
+		} else if r.Trusted {
+			status = "trusted"
+		} else if ok != n {
+			status = "FAILED"
+			bad++
+		}
+		fmt.Printf("%-50s %3d/%3d %s\n", r.Name, ok, n, status)
+		for _, o := range r.Obls {
+			if o.Kind == "vacuity" {
+				if o.Status == "unsat" {
+					fmt.Printf("    VACUOUS preconditions: %s\n", o.Name)
+					bad++
+				}
+				continue
+			}
+			if *verbose || o.Status != "unsat" {
+				fmt.Printf("    %-60s %-8s %-7s %.2fs %s\n", o.Name, o.Status, o.Solver, o.Seconds, o.File)
+				if o.Status == "sat" && len(o.Model) > 0 {
+					var ks []string
+					for k := range o.Model {
+						ks = append(ks, k)
+					}
+					sort.Strings(ks)
+					var parts []string
+					for _, k := range ks {
+						if len(parts) < 24 {
+							parts = append(parts, k+"="+o.Model[k])
+						}
+					}
+					fmt.Printf("        model: %s\n", strings.Join(parts, " "))
+				}
+			}
+		}
+	}
+	for _, n := range ln {
+		for _, o := range all {
+			if o.Name == "lemma/"+n && o.Status != "unsat" {
+				fmt.Printf("LEMMA %s: %s\n", n, o.Status)
+				bad++
+			}
+		}
+	}
+	if bad > 0 {
+		os.Exit(1)
+	}
+}
+
+func cmdCheck(args []string) {
+	fmt.Fprintln(os.Stderr, "not implemented yet")
+	os.Exit(2)
 }
